@@ -183,7 +183,7 @@ func c38(r *simk.Run) *simk.Violation {
 	for o := 0; o < nOps; o++ {
 		if c.Bool(0.6) {
 			n := 1 + c.Intn(4)
-			op := c38Op{Kind: "build", Rate: []uint64{1, 0, 2, 7, 1 << 60}[c.Intn(5)]}
+			op := c38Op{Kind: "build", Rate: []uint64{1, 0, 2, 7, 1 << 60, 1 << 56, 1 << 55}[c.Intn(7)]}
 			for k := 0; k < n; k++ {
 				i := c.Intn(nTx)
 				if r.Avoid {
